@@ -9,10 +9,13 @@ import (
 
 	"github.com/gin-gonic/gin"
 
+	"github.com/free5gc/chf/internal/cgf"
 	chf_context "github.com/free5gc/chf/internal/context"
 	"github.com/free5gc/chf/internal/sbi/processor"
 	"github.com/free5gc/chf/pkg/factory"
 )
+
+var _ = cgf.SpecReady
 
 // ghost view of the response written through gin (updated by the assumed contracts of gin.Context)
 var ghostHttpStatus int
@@ -82,11 +85,13 @@ func specWritesOK() bool {
 // (any value of the request type, any error).
 //@ func (*Server).ChargingdataPost [C11]
 //@   entry
+//@   requires cgf.SpecReady()
 //@   requires s != nil && s.ServerChf != nil && c != nil && specWritesOK()
 //@   ensures specAnswers() == old(specAnswers())+1
 //@   ensures ghostHttpWrites == old(ghostHttpWrites)+1 ==> (ghostHttpStatus == 400 || ghostHttpStatus == 500) && ghostHttpBody
 //@ func (*Server).ChargingdataChargingDataRefUpdatePost [C11]
 //@   entry
+//@   requires cgf.SpecReady()
 //@   requires s != nil && s.ServerChf != nil && c != nil && specWritesOK()
 //@   requires [C20] specEnvOK()
 //@   ensures specAnswers() == old(specAnswers())+1
